@@ -46,7 +46,10 @@ def classify(r):
                 lst = set(map(tuple, o[side + "_list"]))
                 if lst != E:
                     return "index-load/%s/listblobs" % name, "layout %s, history [%s], step %d: present files %s, ListBlobs differs: extra %s, missing %s" % (r["layout"], hist, i + 1, sorted(pres), sorted(lst - E)[:4], sorted(E - lst)[:4])
-            return "index-load/incremental-differs-from-fresh", "layout %s, history [%s], step %d: same sets but different multiplicities: incremental %s, fresh %s" % (r["layout"], hist, i + 1, sorted(map(tuple, o["inc_list"])), sorted(map(tuple, o["fresh_list"])))
+            bags_differ = sorted(map(tuple, o["inc_list"])) != sorted(map(tuple, o["fresh_list"])) or any(
+                sorted(map(tuple, o["inc"][x][0])) != sorted(map(tuple, o["fresh"][x][0])) for x in range(len(r["blobs"])))
+            if bags_differ:
+                return "index-load/incremental-differs-from-fresh", "layout %s, history [%s], step %d: same sets but different multiplicities: incremental %s, fresh %s" % (r["layout"], hist, i + 1, sorted(map(tuple, o["inc_list"])), sorted(map(tuple, o["fresh_list"])))
     return "index-load/unclassified", "TLC rejected the record, python mirror found no difference"
 
 
@@ -63,7 +66,7 @@ def run(ctx):
     hist = os.path.join(gen["dir"], "hist.ndjson")
     nh = sum(1 for _ in open(hist))
     # 3. replay into the real code, 4. TLC judges the records
-    out = ctx.go_test("internal/repository", "^TestVerif_C08$", timeout=2400, env={"VERIF_VECTORS": hist, "GOMAXPROCS": "4"})
+    out = ctx.go_test("internal/repository", "^TestVerif_C08$", timeout=2400, env={"VERIF_VECTORS": hist, "GOMAXPROCS": "2"})
     res = ctx.go_results[-1]
     n, bad, lines = ctx.check_records("Fn_IndexLoad", os.path.join(out, "recs.ndjson"), shard=ctx.pick(260, 2500), timeout=1500)
     seen = {}
